@@ -531,8 +531,9 @@ end TW.C16
 
 The footprint of an image catalog with fewer than three (or only collinear) sources.  The model
 (`Model/ChipBorder.lean`, namespace `TW.Chip`) is the method up to the call of `det_to_world`:
-`chipRect` (bounding box shrunk by half a pixel, or — no bounding box — `[-1/2, upperEdge(max x)] ×
-[-1/2, upperEdge(max y)]` with `upperEdge m = max(1, ⌊m + 1/2⌋ + 1) − 1/2`), `nint` (3 intervals, or
+`chipRect` (bounding box shrunk by half a pixel but not past the sources inside the box — `rectBB`; the
+plain shrink `rectBBOld` is the code before the repair of finding F25 —, or — no bounding box —
+`[-1/2, upperEdge(max x)] × [-1/2, upperEdge(max y)]` with `upperEdge m = max(1, ⌊m + 1/2⌋ + 1) − 1/2`), `nint` (3 intervals, or
 `max(2, ⌈(hi − lo)/stepsize⌉)`), `linspace` (as `numpy.linspace` evaluates it, end point exact),
 `chipBorder` (the lists `borderx`, `bordery` zipped) and `chipPolygon` (the whole).  `K` is any linearly
 ordered field with a floor; rounding, the sky map and the spherical polygon are outside the model.
@@ -623,34 +624,105 @@ theorem chip_rect_error (bbox : Option (Rect K)) (cat : List (K × K)) (e : Chip
         rw [hr] at h; cases h
     · rintro ⟨_, rfl, rfl⟩; rfl
 
-/-! #### (b) bounding box: shrunk by half a pixel -/
+/-! #### (b) bounding box: shrunk by half a pixel, but not past the sources inside the box -/
 
-/-- the rectangle is the box minus half a pixel on every side; it is non-degenerate exactly when the box
-is wider (taller) than one pixel -/
+/-- the rectangle always exists.  Without sources it is the box minus half a pixel on every side; with
+sources, `nx, mx, ny, my` being the smallest and largest coordinates of the catalog, it is
+`[min (lx + 1/2) (max nx lx), max (hx − 1/2) (min mx hx)] × [min (ly + 1/2) (max ny ly), max (hy − 1/2) (min my hy)]`.
+In both cases no side is shrunk by more than half a pixel, and the rectangle is non-degenerate when the box is wider (taller) than one
+pixel -/
 theorem chip_bb_rect (b : Rect K) (cat : List (K × K)) :
     ∃ r, chipRect (some b) cat = .ok r ∧
-      r.lx = b.lx + 1 / 2 ∧ r.hx = b.hx - 1 / 2 ∧ r.ly = b.ly + 1 / 2 ∧ r.hy = b.hy - 1 / 2 ∧
-      r.hx - r.lx = (b.hx - b.lx) - 1 ∧ r.hy - r.ly = (b.hy - b.ly) - 1 ∧
-      (r.lx < r.hx ↔ 1 < b.hx - b.lx) ∧ (r.ly < r.hy ↔ 1 < b.hy - b.ly) := by
-  refine ⟨rectBB b, rfl, ?_, ?_, ?_, ?_, ?_, ?_, ?_, ?_⟩ <;> simp only [rectBB, TW.Hist.halfK_eq]
-  · ring
-  · ring
-  · constructor <;> intro h <;> linarith
-  · constructor <;> intro h <;> linarith
+      (cat = [] → r.lx = b.lx + 1 / 2 ∧ r.hx = b.hx - 1 / 2 ∧ r.ly = b.ly + 1 / 2 ∧ r.hy = b.hy - 1 / 2) ∧
+      (cat ≠ [] → ∃ nx mx ny my,
+        (nx ∈ cat.map (fun p => p.1) ∧ ∀ s ∈ cat, nx ≤ s.1) ∧ (mx ∈ cat.map (fun p => p.1) ∧ ∀ s ∈ cat, s.1 ≤ mx) ∧
+        (ny ∈ cat.map (fun p => p.2) ∧ ∀ s ∈ cat, ny ≤ s.2) ∧ (my ∈ cat.map (fun p => p.2) ∧ ∀ s ∈ cat, s.2 ≤ my) ∧
+        r.lx = min (b.lx + 1 / 2) (max nx b.lx) ∧ r.hx = max (b.hx - 1 / 2) (min mx b.hx) ∧
+        r.ly = min (b.ly + 1 / 2) (max ny b.ly) ∧ r.hy = max (b.hy - 1 / 2) (min my b.hy)) ∧
+      r.lx ≤ b.lx + 1 / 2 ∧ b.hx - 1 / 2 ≤ r.hx ∧ r.ly ≤ b.ly + 1 / 2 ∧ b.hy - 1 / 2 ≤ r.hy ∧
+      (b.hx - b.lx) - 1 ≤ r.hx - r.lx ∧ (b.hy - b.ly) - 1 ≤ r.hy - r.ly ∧
+      (1 < b.hx - b.lx → r.lx < r.hx) ∧ (1 < b.hy - b.ly → r.ly < r.hy) := by
+  refine ⟨rectBB b cat, rfl, ?_, ?_, ?_⟩
+  · rintro rfl
+    rw [rectBB_nil, rectBBOld_eq]
+    exact ⟨rfl, rfl, rfl, rfl⟩
+  · intro hne
+    obtain ⟨nx, mx, ny, my, h1, h2, h3, h4, e⟩ := rectBB_ne b cat hne
+    exact ⟨nx, mx, ny, my, h1, h2, h3, h4, by rw [e], by rw [e], by rw [e], by rw [e]⟩
+  · have key : (rectBB b cat).lx ≤ b.lx + 1 / 2 ∧ b.hx - 1 / 2 ≤ (rectBB b cat).hx ∧
+        (rectBB b cat).ly ≤ b.ly + 1 / 2 ∧ b.hy - 1 / 2 ≤ (rectBB b cat).hy := by
+      by_cases hne : cat = []
+      · subst hne
+        rw [rectBB_nil, rectBBOld_eq]
+        exact ⟨le_refl _, le_refl _, le_refl _, le_refl _⟩
+      · obtain ⟨nx, mx, ny, my, _, _, _, _, e⟩ := rectBB_ne b cat hne
+        rw [e]
+        exact ⟨min_le_left _ _, le_max_left _ _, min_le_left _ _, le_max_left _ _⟩
+    obtain ⟨k1, k2, k3, k4⟩ := key
+    refine ⟨k1, k2, k3, k4, by linarith, by linarith, fun h => by linarith, fun h => by linarith⟩
 
-/-- consequence (recorded, see the harness probe): a pixel position in the outer half-pixel band of the
-box — inside the image, beyond the centre of its last (before the centre of its first) pixel — is
-outside the rectangle -/
-theorem chip_bb_outer_band (b : Rect K) (cat : List (K × K)) (r : Rect K)
-    (h : chipRect (some b) cat = .ok r) (x y : K) :
-    (b.hx - 1 / 2 < x → r.hx < x) ∧ (x < b.lx + 1 / 2 → x < r.lx) ∧
-    (b.hy - 1 / 2 < y → r.hy < y) ∧ (y < b.ly + 1 / 2 → y < r.ly) := by
-  obtain ⟨r', hr', e1, e2, e3, e4, _⟩ := chip_bb_rect b cat
-  rw [h] at hr'
-  injection hr' with hr'
-  subst hr'
-  rw [e1, e2, e3, e4]
-  exact ⟨id, id, id, id⟩
+/-- **the rectangle contains the sources inside the bounding box** (coordinate by coordinate: a source at
+or above the lower edge of the box is at or above the lower edge of the rectangle, …): in particular
+every source of the catalog that lies in the closed bounding box lies in the rectangle -/
+theorem chip_bb_contains (b : Rect K) (cat : List (K × K)) (r : Rect K)
+    (h : chipRect (some b) cat = .ok r) : ∀ s ∈ cat,
+    (b.lx ≤ s.1 → r.lx ≤ s.1) ∧ (s.1 ≤ b.hx → s.1 ≤ r.hx) ∧ (b.ly ≤ s.2 → r.ly ≤ s.2) ∧ (s.2 ≤ b.hy → s.2 ≤ r.hy) := by
+  intro s hs
+  have hne : cat ≠ [] := List.ne_nil_of_mem hs
+  obtain ⟨nx, mx, ny, my, ⟨_, h1⟩, ⟨_, h2⟩, ⟨_, h3⟩, ⟨_, h4⟩, e⟩ := rectBB_ne b cat hne
+  have hr : r = rectBB b cat := by
+    have : chipRect (some b) cat = .ok (rectBB b cat) := rfl
+    rw [this] at h; injection h with h; exact h.symm
+  rw [hr, e]
+  refine ⟨fun hb => ?_, fun hb => ?_, fun hb => ?_, fun hb => ?_⟩
+  · exact le_trans (min_le_right _ _) (max_le (h1 s hs) hb)
+  · exact le_trans (le_min (h2 s hs) hb) (le_max_right _ _)
+  · exact le_trans (min_le_right _ _) (max_le (h3 s hs) hb)
+  · exact le_trans (le_min (h4 s hs) hb) (le_max_right _ _)
+
+/-- **the rectangle stays inside the closed bounding box** when the box is at least one pixel wide and
+high (whatever the catalog: sources outside the box move an edge at most to the edge of the box) -/
+theorem chip_bb_within_box (b : Rect K) (cat : List (K × K)) (r : Rect K)
+    (h : chipRect (some b) cat = .ok r) :
+    (1 ≤ b.hx - b.lx → b.lx ≤ r.lx ∧ r.hx ≤ b.hx) ∧ (1 ≤ b.hy - b.ly → b.ly ≤ r.ly ∧ r.hy ≤ b.hy) := by
+  have hr : r = rectBB b cat := by
+    have : chipRect (some b) cat = .ok (rectBB b cat) := rfl
+    rw [this] at h; injection h with h; exact h.symm
+  by_cases hne : cat = []
+  · subst hne
+    rw [hr, rectBB_nil, rectBBOld_eq]
+    exact ⟨fun hw => ⟨by simp only; linarith, by simp only; linarith⟩,
+      fun hw => ⟨by simp only; linarith, by simp only; linarith⟩⟩
+  · obtain ⟨nx, mx, ny, my, _, _, _, _, e⟩ := rectBB_ne b cat hne
+    rw [hr, e]
+    exact ⟨fun hw => ⟨le_min (by linarith) (le_max_right _ _), max_le (by linarith) (min_le_right _ _)⟩,
+      fun hw => ⟨le_min (by linarith) (le_max_right _ _), max_le (by linarith) (min_le_right _ _)⟩⟩
+
+/-- **nothing changes for catalogs that keep half a pixel from the edges of the box**: if every source
+is in the box shrunk by half a pixel (and for the empty catalog) the rectangle is that shrunk box, as
+before the repair of finding F25 -/
+theorem chip_bb_unchanged_if_clear (b : Rect K) (cat : List (K × K))
+    (hclear : ∀ s ∈ cat, b.lx + 1 / 2 ≤ s.1 ∧ s.1 ≤ b.hx - 1 / 2 ∧ b.ly + 1 / 2 ≤ s.2 ∧ s.2 ≤ b.hy - 1 / 2) :
+    chipRect (some b) cat = .ok (rectBBOld b) ∧
+    rectBBOld b = ⟨b.lx + 1 / 2, b.hx - 1 / 2, b.ly + 1 / 2, b.hy - 1 / 2⟩ := by
+  refine ⟨?_, rectBBOld_eq b⟩
+  have : chipRect (some b) cat = .ok (rectBB b cat) := rfl
+  rw [this]
+  congr 1
+  by_cases hne : cat = []
+  · subst hne; exact rectBB_nil b
+  · obtain ⟨nx, mx, ny, my, ⟨m1, _⟩, ⟨m2, _⟩, ⟨m3, _⟩, ⟨m4, _⟩, e⟩ := rectBB_ne b cat hne
+    obtain ⟨s1, hs1, rfl⟩ := List.mem_map.mp m1
+    obtain ⟨s2, hs2, rfl⟩ := List.mem_map.mp m2
+    obtain ⟨s3, hs3, rfl⟩ := List.mem_map.mp m3
+    obtain ⟨s4, hs4, rfl⟩ := List.mem_map.mp m4
+    rw [e, rectBBOld_eq]
+    have c1 := (hclear s1 hs1).1
+    have c2 := (hclear s2 hs2).2.1
+    have c3 := (hclear s3 hs3).2.2.1
+    have c4 := (hclear s4 hs4).2.2.2
+    rw [min_eq_left (le_trans c1 (le_max_left _ _)), max_eq_left (le_trans (min_le_left _ _) c2),
+      min_eq_left (le_trans c3 (le_max_left _ _)), max_eq_left (le_trans (min_le_left _ _) c4)]
 
 /-! #### (d) the numbers of intervals -/
 
@@ -911,24 +983,33 @@ theorem chipPolygon_error (bbox : Option (Rect K)) (step : Option K) (cat : List
           · have := (nint_error step r.lx r.hx .zeroStep).mpr ⟨h, rfl⟩
             rw [hnx] at this; cases this
 
-/-- **the footprint contains its sources** (pixel plane, no bounding box): every source with coordinates
-`≥ -1/2` is in the region bounded by the border polygon handed to `det_to_world`, strictly below the
-upper edges — for every non-empty catalog and every `stepsize` -/
-theorem chip_polygon_contains_sources (step : Option K) (cat : List (K × K)) (p : ChipPoly K)
-    (h : chipPolygon none step cat = .ok p) :
-    ∀ s ∈ cat, -(1 / 2) ≤ s.1 → -(1 / 2) ≤ s.2 →
-      AllLeft s p.pts ∧ s.1 < p.rect.hx ∧ s.2 < p.rect.hy := by
-  intro s hs h1 h2
-  obtain ⟨hr, _, _, hpts, hnx, _⟩ := chipPolygon_ok none step cat p h
-  obtain ⟨c1, c2, c3, c4⟩ := chip_nobb_contains cat p.rect hr s hs h1 h2
-  obtain ⟨r', hr', elx, ely, hlt, _⟩ := chip_nobb_rect cat (List.ne_nil_of_mem hs)
-  rw [hr] at hr'
-  injection hr' with hr'
-  have hxlt : p.rect.lx < p.rect.hx := lt_of_le_of_lt c1 c2
-  have hylt : p.rect.ly < p.rect.hy := lt_of_le_of_lt c3 c4
-  refine ⟨?_, c2, c4⟩
-  rw [hpts, border_region p.rect p.nintx p.ninty (by omega) hxlt hylt]
-  exact ⟨c1, le_of_lt c2, c3, le_of_lt c4⟩
+/-- **the footprint contains its sources** (pixel plane), for every `stepsize`.  Without bounding box:
+every source with coordinates `≥ -1/2` is in the region bounded by the border polygon handed to
+`det_to_world`, strictly below the upper edges.  With a bounding box wider and taller than one pixel:
+every source of the catalog that lies in the closed bounding box is in that region -/
+theorem chip_polygon_contains_sources (bbox : Option (Rect K)) (step : Option K) (cat : List (K × K))
+    (p : ChipPoly K) (h : chipPolygon bbox step cat = .ok p) :
+    (bbox = none → ∀ s ∈ cat, -(1 / 2) ≤ s.1 → -(1 / 2) ≤ s.2 →
+      AllLeft s p.pts ∧ s.1 < p.rect.hx ∧ s.2 < p.rect.hy) ∧
+    (∀ b, bbox = some b → 1 < b.hx - b.lx → 1 < b.hy - b.ly →
+      ∀ s ∈ cat, b.lx ≤ s.1 → s.1 ≤ b.hx → b.ly ≤ s.2 → s.2 ≤ b.hy → AllLeft s p.pts) := by
+  obtain ⟨hr, _, _, hpts, hnx, _⟩ := chipPolygon_ok bbox step cat p h
+  constructor
+  · rintro rfl s hs h1 h2
+    obtain ⟨c1, c2, c3, c4⟩ := chip_nobb_contains cat p.rect hr s hs h1 h2
+    have hxlt : p.rect.lx < p.rect.hx := lt_of_le_of_lt c1 c2
+    have hylt : p.rect.ly < p.rect.hy := lt_of_le_of_lt c3 c4
+    refine ⟨?_, c2, c4⟩
+    rw [hpts, border_region p.rect p.nintx p.ninty (by omega) hxlt hylt]
+    exact ⟨c1, le_of_lt c2, c3, le_of_lt c4⟩
+  · rintro b rfl hw hh s hs h1 h2 h3 h4
+    obtain ⟨c1, c2, c3, c4⟩ := chip_bb_contains b cat p.rect hr s hs
+    obtain ⟨r', hr', _, _, _, _, _, _, _, _, hxlt, hylt⟩ := chip_bb_rect b cat
+    rw [hr] at hr'
+    injection hr' with hr'
+    subst hr'
+    rw [hpts, border_region p.rect p.nintx p.ninty (by omega) (hxlt hw) (hylt hh)]
+    exact ⟨c1 h1, c2 h2, c3 h3, c4 h4⟩
 
 end chip
 
@@ -943,11 +1024,42 @@ example : chipRect (K := ℚ) none [(0, 0)] = .ok ⟨-1/2, 1/2, -1/2, 1/2⟩ := 
 example : chipRect (K := ℚ) none [(-3, -7)] = .ok ⟨-1/2, 1/2, -1/2, 1/2⟩ ∧ ¬ ((-1/2 : ℚ) ≤ -3) := by
   decide +kernel
 example : chipRect (K := ℚ) none [] = .error .emptyCatalog := by decide +kernel
--- (b) a 100 × 50 image; a 1 × 1 image degenerates to the point `(0, 0)`
+-- (b) a 100 × 50 image: without sources, and with sources that keep half a pixel from the edges
+-- (`chip_bb_unchanged_if_clear`), the box shrunk by half a pixel; a 1 × 1 image degenerates to the point `(0, 0)`
 example : chipRect (K := ℚ) (some ⟨-1/2, 199/2, -1/2, 99/2⟩) [] = .ok ⟨0, 99, 0, 49⟩ := by decide +kernel
+example : chipRect (K := ℚ) (some ⟨-1/2, 199/2, -1/2, 99/2⟩) [(0, 49), (99, 0), (17/3, 5)] = .ok ⟨0, 99, 0, 49⟩ := by
+  decide +kernel
 example : chipRect (K := ℚ) (some ⟨-1/2, 1/2, -1/2, 1/2⟩) [(0, 0)] = .ok ⟨0, 0, 0, 0⟩ := by decide +kernel
--- the outer half-pixel band (`chip_bb_outer_band`): `x = 1023 + 3/10` is in the 1024-pixel box, not in the rectangle
-example : (1023 + 3/10 : ℚ) < 2047/2 ∧ (2047/2 - 1/2 : ℚ) < 1023 + 3/10 := by decide +kernel
+-- sources in the outer half-pixel band and exactly on the edge of the box (`chip_bb_contains`): the edges follow them
+example : chipRect (K := ℚ) (some ⟨-1/2, 2047/2, -1/2, 2047/2⟩) [(1023 + 3/10, 500)] =
+    .ok ⟨0, 1023 + 3/10, 0, 1023⟩ := by decide +kernel
+example : chipRect (K := ℚ) (some ⟨-1/2, 199/2, -1/2, 99/2⟩) [(-1/2, 99/2), (99 + 2/5, -1/5)] =
+    .ok ⟨-1/2, 99 + 2/5, -1/5, 99/2⟩ := by decide +kernel
+-- sources outside the box move an edge to the edge of the box, not beyond (`chip_bb_within_box`)
+example : chipRect (K := ℚ) (some ⟨-1/2, 199/2, -1/2, 99/2⟩) [(120, 20), (50, -7)] = .ok ⟨0, 199/2, -1/2, 49⟩ := by
+  decide +kernel
+-- `chip_bb_within_box` needs a box at least one pixel wide: in a box half a pixel wide the shrunk lower edge
+-- `lx + 1/2` is already beyond the upper edge of the box (the source still is inside the rectangle)
+example : chipRect (K := ℚ) (some ⟨2, 5/2, 0, 4⟩) [(11/5, 2)] = .ok ⟨11/5, 11/5, 1/2, 7/2⟩ := by decide +kernel
+-- the whole method with a bounding box and a source exactly on the edge `x = 199/2` of the box: the right side of
+-- the border runs through the source
+example : (chipPolygon (K := ℚ) (some ⟨-1/2, 199/2, -1/2, 99/2⟩) none [(199/2, 10)]).toOption.map
+    (fun p => (p.rect, p.nintx, p.ninty, p.pts.length)) = some (⟨0, 199/2, 0, 49⟩, 3, 3, 13) := by decide +kernel
+-- **finding F25 (repaired), refuted for the old code**: the plain shrink `rectBBOld` — the rectangle before the
+-- repair — does NOT contain the sources inside the box: `x = 1023 + 3/10` is in the 1024-pixel box and beyond
+-- the old upper edge `1023`; in general everything in the outer half-pixel band was outside
+example : ¬ ∀ (b : Rect ℚ) (cat : List (ℚ × ℚ)), ∀ s ∈ cat,
+    (b.lx ≤ s.1 → (rectBBOld b).lx ≤ s.1) ∧ (s.1 ≤ b.hx → s.1 ≤ (rectBBOld b).hx) ∧
+    (b.ly ≤ s.2 → (rectBBOld b).ly ≤ s.2) ∧ (s.2 ≤ b.hy → s.2 ≤ (rectBBOld b).hy) := by
+  intro h
+  have h2 := (h ⟨-1/2, 2047/2, -1/2, 2047/2⟩ [(1023 + 3/10, 500)] (1023 + 3/10, 500) (List.mem_singleton.mpr rfl)).2.1
+  revert h2
+  decide +kernel
+example (b : Rect ℚ) (x y : ℚ) :
+    (b.hx - 1 / 2 < x → (rectBBOld b).hx < x) ∧ (x < b.lx + 1 / 2 → x < (rectBBOld b).lx) ∧
+    (b.hy - 1 / 2 < y → (rectBBOld b).hy < y) ∧ (y < b.ly + 1 / 2 → y < (rectBBOld b).ly) := by
+  rw [rectBBOld_eq]
+  exact ⟨id, id, id, id⟩
 -- (d) interval counts: none → 3; 99/(5/2) = 39.6 → 40; a huge step → 2; a negative step → 2; zero → error
 example : nint (K := ℚ) none 0 99 = .ok 3 := by decide +kernel
 example : nint (K := ℚ) (some (5/2)) 0 99 = .ok 40 := by decide +kernel
